@@ -150,6 +150,7 @@ def base_specs(thorough):
 BIG = 70000  # more than http.client's line limit (65536) of newline-free data inside one chunk
 BIG_SPEC = (BIG, "identity-nolf", "chunked-one")
 STACK_SPECS = [(17, "zstd,gzip", "cl"), (17, "zstd,gzip", "chunked-one")]
+MULTI_SPECS = [(17, "zstd2", "cl"), (17, "zstd2", "chunked-one"), (17, "zstd3", "cl")]
 
 
 def build(spec):
@@ -210,6 +211,19 @@ def faults(spec, thorough):
         for digits in (16, 17):
             w2 = b"f" * digits + wire[b - 2:]
             yield (("sizeline-huge", digits), head, w2, "bad", None, data)
+    if coding in ("zstd2", "zstd3"):
+        # several concatenated zstd frames, cut inside a LATER frame (framing intact): the frames before the cut are
+        # complete, the stream is not. A cut exactly between two frames is a complete, shorter stream (left open).
+        # (wave-6 change w6_c13_m1: the decoder's flush() looked at the first frame's finished object only)
+        bounds = encode(coding, data)[2]
+        for k in range(1, len(body)):
+            b2 = body[:k]
+            if fr == "cl":
+                h2, w2, _ = frame(b2, "cl", ce="zstd")
+            else:
+                h2, w2, _ = frame(b2, "chunked", chunks=[len(b2)], ce="zstd")
+            yield (("content-cut", k), h2, w2, "either" if k in bounds else "bad", None, None)
+        return
     if coding == "zstd,gzip":
         # a stack whose INNER (first-applied) coding is zstd: the inner stream is cut short, the outer gzip member and the
         # framing around it are intact - the zstd frame is incomplete all the same
@@ -489,7 +503,7 @@ def _task(t):
 
 
 def run(ctx):
-    tasks = [(s, ctx.thorough) for s in base_specs(ctx.thorough) + STACK_SPECS + [BIG_SPEC]]
+    tasks = [(s, ctx.thorough) for s in base_specs(ctx.thorough) + STACK_SPECS + MULTI_SPECS + [BIG_SPEC]]
     acc = ctx.gather(_task, tasks)
     cov = {
         "distinct_nontrivial": acc.counters["faulty_inputs"],
